@@ -50,6 +50,12 @@ PURE_METHODS = {
 # mutation in the sense of the purity rules; recorded separately by the RNG rules
 # calls whose result shares nothing with their argument
 DEEP_COPIES = {'pickle.loads', 'pickle.dumps', 'copy.deepcopy', 'deepcopy', 'loads', 'dumps'}
+# numpy constructors / reductions whose result is a new numeric array: it holds no caller object
+NUMERIC_FRESH = {'np.zeros', 'np.ones', 'np.empty', 'np.full', 'np.arange', 'np.zeros_like',
+                 'np.ones_like', 'np.empty_like', 'np.full_like', 'np.bincount', 'np.cumsum',
+                 'np.repeat', 'np.linspace', 'np.eye', 'np.identity'}
+# annotations of parameters whose values cannot be modified in place
+IMMUTABLE_ANNOTATIONS = {'int', 'float', 'bool', 'str', 'bytes', 'complex'}
 RNG_METHODS = {'choice', 'integers', 'random', 'shuffle', 'permutation', 'uniform', 'normal',
                'permuted', 'bytes', 'standard_normal', 'binomial', 'poisson', 'exponential'}
 
@@ -115,7 +121,10 @@ class Effects:
         denotes the caller's object)"""
         f = self.funcs[q]
         w = self.walks[q]
-        params = set(w.params)
+        # a parameter declared as a number / string denotes nothing that can be modified
+        scalar = {a.arg for a in f.params() if a.annotation is not None
+                  and src(a.annotation) in IMMUTABLE_ANNOTATIONS}
+        params = set(w.params) - scalar
         out: Set[str] = set()
         comp_env: Dict[str, ast.AST] = {}     # comprehension target -> iterated expression
         busy: Set[Tuple[str, int]] = set()
@@ -229,7 +238,7 @@ class Effects:
                         out.add('<origin>')
                         return
                     fs = src(x.func)
-                    if fs in DEEP_COPIES:
+                    if fs in DEEP_COPIES or fs in NUMERIC_FRESH:
                         return
                     args = list(x.args) + [k.value for k in x.keywords]
                     callee = self.resolve(q, x)
